@@ -16,9 +16,10 @@ import (
 
 // chunkReader hands out the stream in pieces: mode 0 = whole, 1 = byte by byte, n>1 = seeded random sizes.
 type chunkReader struct {
-	data []byte
-	mode int64
-	rng  *rand.Rand
+	data  []byte
+	mode  int64
+	rng   *rand.Rand
+	sizes []int // the size of every chunk handed out (one underlying Read each), for the model's chunked reader
 }
 
 func (c *chunkReader) Read(p []byte) (int, error) {
@@ -49,7 +50,29 @@ func (c *chunkReader) Read(p []byte) (int, error) {
 	}
 	copy(p, c.data[:n])
 	c.data = c.data[n:]
+	c.sizes = append(c.sizes, n)
 	return n, nil
+}
+
+// renderSizes: "k=3,1x40,7" (run-length encoded: size x repetitions); "k=-" when nothing was read.
+func renderSizes(sz []int) string {
+	if len(sz) == 0 {
+		return "k=-"
+	}
+	var parts []string
+	for i := 0; i < len(sz); {
+		j := i
+		for j < len(sz) && sz[j] == sz[i] {
+			j++
+		}
+		if j-i > 1 {
+			parts = append(parts, fmt.Sprintf("%dx%d", sz[i], j-i))
+		} else {
+			parts = append(parts, strconv.Itoa(sz[i]))
+		}
+		i = j
+	}
+	return "k=" + strings.Join(parts, ",")
 }
 
 func renderVal(d resp.RedisData) string {
@@ -82,17 +105,19 @@ func renderVal(d resp.RedisData) string {
 	return "?"
 }
 
-func parseEvents(stream []byte, mode int64) string {
+func parseEvents(stream []byte, mode int64) (chunks string, events string) {
 	ctx, cancel := context.WithCancel(context.Background())
 	defer cancel()
-	ch := resp.ParseStream(ctx, &chunkReader{data: stream, mode: mode, rng: rand.New(rand.NewSource(mode))})
+	cr := &chunkReader{data: stream, mode: mode, rng: rand.New(rand.NewSource(mode))}
+	ch := resp.ParseStream(ctx, cr)
 	var evs []string
 	timeout := time.After(20 * time.Second)
 	for {
 		select {
 		case r, ok := <-ch:
 			if !ok {
-				return strings.Join(evs, ",")
+				// the parser goroutine has returned (it closed the channel): cr.sizes is no longer written
+				return renderSizes(cr.sizes), strings.Join(evs, ",")
 			}
 			if r.Err != nil {
 				if r.Err == io.EOF {
@@ -105,12 +130,12 @@ func parseEvents(stream []byte, mode int64) string {
 			}
 		case <-timeout:
 			evs = append(evs, "HANG")
-			return strings.Join(evs, ",")
+			return "k=-", strings.Join(evs, ",")
 		}
 	}
 }
 
-// runParser: "P <stream-hex> <mode>" -> appends the comma-separated event list.
+// runParser: "P <stream-hex> <mode>" -> appends "k=<chunk sizes the reader handed out>" and the comma-separated event list.
 // Output is flushed per line: a panic in the parser goroutine kills the process, the orchestrator restarts after it.
 func runParser(args []string) {
 	in := bufio.NewScanner(os.Stdin)
@@ -123,7 +148,8 @@ func runParser(args []string) {
 			continue
 		}
 		mode, _ := strconv.ParseInt(f[2], 10, 64)
-		fmt.Fprintf(out, "%s %s\n", line, parseEvents(unhex(f[1]), mode))
+		ks, evs := parseEvents(unhex(f[1]), mode)
+		fmt.Fprintf(out, "%s %s %s\n", line, ks, evs)
 		out.Flush()
 	}
 }
